@@ -101,6 +101,14 @@ bool platform_event_wait(platform_event_t* event, int timeout_ms);
 void* platform_event_get_native_handle(platform_event_t* event);
 #endif
 
+/**
+ * Atomic access to a plain int shared between threads (e.g. a flag set by a timer
+ * thread and polled by the main thread). Sequentially consistent. The variable itself
+ * stays an ordinary `int`, so existing declarations do not change.
+ */
+int platform_atomic_load_int(const int* p);
+void platform_atomic_store_int(int* p, int value);
+
 #ifdef __cplusplus
 }
 #endif
